@@ -135,6 +135,39 @@ def r12_4_candidates(repo: Repo, rep: Report):
     for q, frag in (("__main__.run_message", "path.process_dyn_params(dyn_params)"), ("__main__.run_target_function", "path.process_dyn_params(dyn_params)"), ("__main__.setup", "setup_ex.path.process_dyn_params(dyn_params)"), ("cheatcodes.create_calldata_generic", "ex.path.process_dyn_params(dyn_params)")):
         mm, fn = repo.fn(q)
         rep.check("R12.4", frag in src(fn), mm, fn, f"{q}: {frag}", "candidates of this calldata are never registered: its length stays symbolic and is not explored per candidate")
+    # ... in the same block as (i.e. once per) the creation of the calldata: a registration outside the loop that creates
+    # several calldata registers only the last one
+    n_pairs = 0
+    for mm in repo.modules.values():
+        for q, fn in mm.defs.items():
+            if not isinstance(fn, (ast.FunctionDef, ast.AsyncFunctionDef)):
+                continue
+            for st in body_walk(fn):
+                if not (isinstance(st, ast.Assign) and isinstance(st.value, ast.Call) and call_name(st.value) == "mk_calldata" and isinstance(st.targets[0], (ast.Tuple, ast.List)) and len(st.targets[0].elts) == 2 and isinstance(st.targets[0].elts[1], ast.Name)):
+                    continue
+                dname = st.targets[0].elts[1].id
+                parent = mm.parents.get(st)
+                block = next((lst for fld in ("body", "orelse", "finalbody") if isinstance(lst := getattr(parent, fld, None), list) and any(x is st for x in lst)), None)
+                later = []
+                if block is not None:
+                    idx = next(i for i, x in enumerate(block) if x is st)
+                    for x in block[idx + 1:]:
+                        for c in ast.walk(x):
+                            if isinstance(c, ast.Call) and last_attr(c) == "process_dyn_params" and c.args and src(c.args[0]) == dname:
+                                later.append(c)
+                            elif isinstance(c, ast.Call) and isinstance(c.func, ast.Name) and any(isinstance(a, ast.Name) and a.id == dname for a in c.args):
+                                # handed to a function of the package that registers its parameter
+                                for mod2 in repo.modules.values():
+                                    g = mod2.defs.get(c.func.id)
+                                    if isinstance(g, (ast.FunctionDef, ast.AsyncFunctionDef)):
+                                        pos = next(i for i, a in enumerate(c.args) if isinstance(a, ast.Name) and a.id == dname)
+                                        params = [a.arg for a in g.args.args]
+                                        if pos < len(params) and any(isinstance(c2, ast.Call) and last_attr(c2) == "process_dyn_params" and c2.args and src(c2.args[0]) == params[pos] for c2 in ast.walk(g)):
+                                            later.append(c)
+                n_pairs += 1
+                rep.check("R12.4", len(later) >= 1, mm, st, f"{mm.name}.{q}: {src(st.targets[0])} = mk_calldata(...) is followed in the same block by process_dyn_params({dname})", "the candidates of each created calldata must be registered where it is created (per loop iteration): otherwise only the last calldata's lengths are explored")
+    if n_pairs < 4:
+        raise AnalysisError(f"R12.4: only {n_pairs} mk_calldata producers found (setup, run_target_function, run_message, create_calldata_generic expected)")
     # the branch point
     _, cl = repo.fn("sevm.SEVM.calldataload")
     loops = [l for l in body_walk(cl) if isinstance(l, ast.For)]
@@ -213,4 +246,11 @@ def r12_6_create(repo: Repo, rep: Report):
     rep.check("R12.6", bool(ok), m, rets[-1] if rets else cr, "returns (calldata, dyn_params) after the check (or early for no parameters)", "create must return the calldata together with all dynamic parameter records")
 
 
-RULES = [r12_1_type_coverage, r12_2_allow_list, r12_3_leaf_freshness, r12_4_candidates, r12_5_static_dynamic, r12_6_create]
+def r12_7_shared(repo: Repo, rep: Report):
+    """the length substitution of a path (Concretization) must be the path's own: fork-copy completeness (shared with C20)"""
+    from hsa.rules.c20 import r20_1_fork_copies
+
+    r20_1_fork_copies(repo, rep)
+
+
+RULES = [r12_7_shared, r12_1_type_coverage, r12_2_allow_list, r12_3_leaf_freshness, r12_4_candidates, r12_5_static_dynamic, r12_6_create]
